@@ -321,4 +321,128 @@ func TestPropSMFRecord(t *testing.T) {
 	}
 }
 
+// ---- two takes into one file with a write in between ------------------------------------------
+
+type TakesCase struct {
+	Take1, Take2 []live.Chunk
+	BPM          float64
+	Res          uint16
+}
+
+func channelOnly(chunks []live.Chunk) [][]byte {
+	rc := &midiref.Receiver{}
+	for _, ch := range chunks {
+		rc.Feed(ch.Data, ch.Delta)
+	}
+	var out [][]byte
+	for _, d := range rc.Out {
+		if d.Msg[0] < 0xF0 {
+			out = append(out, d.Msg)
+		}
+	}
+	return out
+}
+
+func runTakes(c TakesCase) (res ev.Result) {
+	want := [][][]byte{channelOnly(c.Take1), channelOnly(c.Take2)}
+	res.Nontrivial = len(want[0]) > 0 && len(want[1]) > 0
+	file := smf.New()
+	file.TimeFormat = smf.MetricTicks(c.Res)
+	var first, second bytes.Buffer
+	failed := ev.TryTimeout(ev.Watchdog, func() {
+		for i, take := range [][]live.Chunk{c.Take1, c.Take2} {
+			in := &live.FakeIn{}
+			stop, err := file.RecordFrom(in, c.BPM)
+			if err != nil {
+				panic(err)
+			}
+			for _, ch := range take {
+				in.Feed(ch.Data, ch.Delta)
+			}
+			stop()
+			w := &first
+			if i == 1 {
+				w = &second
+			}
+			if _, err := file.WriteTo(w); err != nil {
+				panic(fmt.Sprintf("WriteTo after take %d: %v", i+1, err))
+			}
+		}
+	})
+	if failed != "" {
+		res.Violation = "recording two takes: " + failed
+		return
+	}
+	for i, b := range [][]byte{first.Bytes(), second.Bytes()} {
+		st, err := smfref.Strict(b)
+		if err != nil {
+			res.Violation = fmt.Sprintf("the file written after take %d is not a valid SMF: %v", i+1, err)
+			return
+		}
+		tracks := st.File.Tracks()
+		if len(tracks) != i+1 {
+			res.Violation = fmt.Sprintf("the file written after take %d has %d tracks, %d takes were recorded", i+1, len(tracks), i+1)
+			return
+		}
+		back, rerr := smf.ReadFrom(bytes.NewReader(b))
+		if rerr != nil {
+			res.Violation = fmt.Sprintf("the library cannot read the file written after take %d: %v", i+1, rerr)
+			return
+		}
+		if d := adapt.DiffTracks(adapt.Tracks(back), tracks); d != "" {
+			res.Violation = fmt.Sprintf("file written after take %d reads back differently: %s", i+1, d)
+			return
+		}
+		for ti, tr := range tracks {
+			var got [][]byte
+			for _, e := range tr {
+				if e.Msg[0] < 0xF0 {
+					got = append(got, e.Msg)
+				}
+			}
+			if len(got) != len(want[ti]) {
+				res.Violation = fmt.Sprintf("file after take %d, track %d: %d channel messages, %d arrived during that take", i+1, ti, len(got), len(want[ti]))
+				return
+			}
+			for k := range got {
+				if !bytes.Equal(got[k], want[ti][k]) {
+					res.Violation = fmt.Sprintf("file after take %d, track %d, message %d: % X, arrived % X", i+1, ti, k, got[k], want[ti][k])
+					return
+				}
+			}
+		}
+	}
+	return
+}
+
+var takes = ev.NewCheck("C13", "smf-record-two-takes",
+	"rapid: two live streams recorded one after the other into the same file with SMF.RecordFrom, the file is written after each take (record - write - record - write); oracle: each written file passes the strict SMF parser, has one track per take so far, reads back equal, and every track holds exactly the channel messages of its take in order; non-trivial = both takes contain channel messages; cases run in parallel (each stop sleeps one second)",
+	func(t *rapid.T) TakesCase {
+		a, b := genCase("smf-fake")(t), genCase("smf-fake")(t)
+		return TakesCase{Take1: a.Chunks, Take2: b.Chunks, BPM: a.BPM, Res: a.Res}
+	}, runTakes)
+
+func TestPropSMFRecordTwoTakes(t *testing.T) {
+	n := ev.N(2, 20) // per shard
+	ev.SetupRapid("C13/smf-record-two-takes", n)
+	var cases []TakesCase
+	rapid.Check(t, func(rt *rapid.T) { cases = append(cases, takes.Gen(rt)) })
+	var wg sync.WaitGroup
+	results := make([]ev.Result, len(cases))
+	for i := range cases {
+		wg.Add(1)
+		go func(i int) {
+			defer wg.Done()
+			results[i] = runTakes(cases[i])
+		}(i)
+	}
+	wg.Wait()
+	for i, r := range results {
+		takes.R.Eval(nil, r.Nontrivial, cases[i], r.Classes...)
+		if r.Violation != "" {
+			takes.R.Fail(t, cases[i], "%s", r.Violation)
+		}
+	}
+}
+
 func TestReplay(t *testing.T) { ev.ReplayAll(t) }
